@@ -746,11 +746,19 @@ func (t *Tree) Compile(file string, args []string, out io.Writer) (err error) {
 					properties[i].s = set.NewSet()
 				}
 				for i, element := range n.Iterator2() {
-					consumes, properties[i].s = optimizeAlternates(element)
+					var elementConsumes bool
+					elementConsumes, properties[i].s = optimizeAlternates(element)
+					consumes = consumes && elementConsumes
 					s = s.Union(properties[i].s)
 				}
 
 				if firstPass {
+					break
+				}
+
+				/* an alternative that can succeed without consuming anything must stay
+				   in an ordered choice: a switch on the next character commits to one case */
+				if !consumes {
 					break
 				}
 
